@@ -11,7 +11,7 @@
 (***************************************************************************)
 EXTENDS Naturals, FiniteSets, TLC
 CONSTANTS MaxL, MaxT, Deviation, Bound
-Kinds == {"use", "extends", "submodule", "pointer", "associate", "binding", "include"}
+Kinds == {"use", "usemixed", "extends", "submodule", "pointer", "associate", "binding", "include"}
 
 VARIABLES kind, L, T, at, visited, steps, stopped
 vars == <<kind, L, T, at, visited, steps, stopped>>
